@@ -527,11 +527,13 @@ func reapplyOverwrittenContainers(finalPod *corev1.Pod, originalPod *corev1.Pod,
 		// sidecarStatus annotation is added on the pod by webhook. We should use new container template
 		// instead of restoring what may be previously injected. Doing this ensures we are correctly calculating
 		// env variables like ISTIO_META_APP_CONTAINERS and ISTIO_META_POD_PORTS.
-		if match := FindContainer(c.Name, parsedInjectedStatus.Containers); match != nil {
-			continue
-		}
+		// Overrides the user gave before the first injection are recorded in the ProxyOverrides annotation and
+		// must be re-applied on every re-injection; only the fallback to the pod spec is skipped.
 		match := FindContainer(c.Name, existingOverrides.Containers)
 		if match == nil {
+			if FindContainer(c.Name, parsedInjectedStatus.Containers) != nil {
+				continue
+			}
 			match = FindContainer(c.Name, originalPod.Spec.Containers)
 		}
 		if match == nil {
@@ -550,11 +552,11 @@ func reapplyOverwrittenContainers(finalPod *corev1.Pod, originalPod *corev1.Pod,
 		finalPod = newMergedPod
 	}
 	for _, c := range templatePod.Spec.InitContainers {
-		if match := FindContainer(c.Name, parsedInjectedStatus.InitContainers); match != nil {
-			continue
-		}
 		match := FindContainer(c.Name, existingOverrides.InitContainers)
 		if match == nil {
+			if FindContainer(c.Name, parsedInjectedStatus.InitContainers) != nil {
+				continue
+			}
 			match = FindContainerFromPod(c.Name, originalPod)
 		}
 		if match == nil {
